@@ -10,13 +10,16 @@
    section it appends) never occurred in an earlier local or remote description. *)
 From Coq Require Import List ZArith String.
 Import ListNotations.
-From Verif Require Import Common.Base Common.JsepNumeral Model.JsepMid Model.JsepMidSpec
-  Proofs.JsepMid Proofs.JsepMidGen Proofs.JsepMidWit Proofs.JsepMidStable.
+From Verif Require Import Common.Base Common.JsepNumeral Model.JsepMid Model.JsepMidSpec Model.JsepMidPair
+  Proofs.JsepMid Proofs.JsepMidGen Proofs.JsepMidWit Proofs.JsepMidStable Proofs.JsepMidChain Proofs.JsepMidPair.
 Open Scope string_scope.
 Open Scope list_scope.
 
 (* (1) holds for every history, with no guard: the i-th transceiver stays the
-   i-th transceiver, keeps its kind and, once set, its mid *)
+   i-th transceiver, keeps its kind and, once set, its mid (histories: any
+   interleaving of AddTransceiver, AddTrack - which may reuse a transceiver -,
+   RemoveTrack, Stop, CreateDataChannel, CreateOffer, CreateAnswer, SetLocal /
+   SetRemoteDescription with offer, pranswer, answer) *)
 Theorem c09_mid_immutable : forall ops1 ops2 i t,
   nth_error (trs (run ops1)) i = Some t ->
   exists t', nth_error (trs (run (ops1 ++ ops2))) i = Some t' /\
@@ -53,8 +56,9 @@ Print Assumptions c09_position_stable_answer_partial.
 (* (2), a whole round: once an exchange has ended with remote description ra
    whose mids are those of our description d1 (ra answers our offer d1, or d1 is
    our answer to the offer ra), every offer created afterwards - after any local
-   AddTransceiver / Stop / CreateDataChannel / CreateOffer calls - starts with the
-   sections of d1 at their places; whatever is new comes after them *)
+   AddTransceiver / AddTrack / RemoveTrack / Stop / CreateDataChannel /
+   CreateOffer calls - starts with the sections of d1 at their places; whatever
+   is new comes after them *)
 Theorem c09_round_partial : forall s d1 ra ops s2 d2,
   cur_remote s = Some ra -> pend_remote s = None ->
   map Some (map r_mid (r_secs ra)) = sec_mids d1 ->
@@ -65,20 +69,94 @@ Theorem c09_round_partial : forall s d1 ra ops s2 d2,
 Proof. exact round_extends_lemma. Qed.
 Print Assumptions c09_round_partial.
 
+(* (2), whole histories.  applied ops lists, in order, the mid lists of the
+   descriptions the history applies on this peer: pc.lastOffer / pc.lastAnswer at
+   an accepted SetLocalDescription(offer / pranswer / answer), the given
+   description at an accepted SetRemoteDescription.  For any two of them, the
+   later one extends the earlier one: every mid of the earlier description stands
+   at the same index in the later one, which has pairwise distinct mids; what is new
+   comes after.  hist_guard (Model/JsepMidSpec.v chain_guard at every call)
+   excludes exactly the recorded causes: the duplicate-mid causes of C06 (its guard
+   at every CreateOffer / CreateAnswer), remote sections that are skipped because
+   they are unusable, stale descriptions (SetLocalDescription applying an offer
+   created before the last description was applied, or an answer created for an
+   earlier remote offer: pion accepts both, the oracle sets such histories aside),
+   and a remote side that does not do its part (its offers extend the description
+   applied last, its answers list the offered mids).  Operations: AddTransceiver,
+   AddTrack, RemoveTrack, Stop, CreateDataChannel, CreateOffer, CreateAnswer,
+   SetLocal / SetRemote with offer, pranswer, answer, in any interleaving. *)
+Theorem c09_position_stable_history_partial : forall ops,
+  hist_guard ops ->
+  forall i j di dj, (i < j)%nat ->
+    nth_error (applied ops) i = Some di -> nth_error (applied ops) j = Some dj ->
+    (exists extra, dj = di ++ extra) /\ NoDup dj /\
+    (forall m x y, nth_error di x = Some m -> nth_error dj y = Some m -> x = y).
+Proof. exact chain_lemma. Qed.
+Print Assumptions c09_position_stable_history_partial.
+
+(* the extension alone needs less: under hist_guard_light (no clause about
+   duplicate mids, remote descriptions not even required to have distinct mids:
+   only usable remote sections, a codec for every kind at CreateOffer /
+   CreateAnswer, no stale offer or answer applied, a remote side that extends /
+   mirrors) every applied description is an extension of every earlier one.  The
+   duplicate-mid causes only decide whether "the" index of a mid is well defined. *)
+Theorem c09_chain_extends_partial : forall ops,
+  hist_guard_light ops ->
+  forall i j di dj, (i < j)%nat ->
+    nth_error (applied ops) i = Some di -> nth_error (applied ops) j = Some dj ->
+    exists extra, dj = di ++ extra.
+Proof. exact chain_extends_lemma. Qed.
+Print Assumptions c09_chain_extends_partial.
+
+(* two pion peers (Model/JsepMidPair.v): each peer runs the model; PDeliver hands
+   the description a peer applied last (pc.LocalDescription()) to the other peer as
+   to_remote of what was generated (what SetRemoteDescription's accessors read in
+   it).  Nothing is assumed about the delivered descriptions: the remote part of
+   the chain guard is discharged by the other peer's invariants.  The guard
+   `orderly` keeps, per peer, the LOCAL part of the chain guard (C06's guard at
+   CreateOffer / CreateAnswer, no stale description applied) and asks for an orderly
+   exchange: no glare, every applied local description is delivered - to a peer
+   whose signalling state accepts it - before the next one is applied.  Then on
+   both peers every applied description extends every earlier one (same mids at
+   the same indices, pairwise distinct), and whenever both peers are stable with
+   nothing in flight they agree on the mid list. *)
+Theorem c09_two_pion_peers_partial : forall sched,
+  orderly sched ->
+  let '(A, B) := prun sched in
+  (forall p, p = A \/ p = B ->
+     forall i j di dj, (i < j)%nat ->
+       nth_error (papplied p) i = Some di -> nth_error (papplied p) j = Some dj ->
+       (exists extra, dj = di ++ extra) /\ NoDup dj /\
+       (forall m x y, nth_error di x = Some m -> nth_error dj y = Some m -> x = y)) /\
+  (psig A = Stable -> psig B = Stable -> p_out A = None -> p_out B = None -> top A = top B).
+Proof. exact pair_chain_lemma. Qed.
+Print Assumptions c09_two_pion_peers_partial.
+
 (* (3): a mid CreateOffer gives a transceiver differs from every mid of the
-   current remote description (while greaterMid does not overflow) ... *)
+   current and of the pending remote description (while greaterMid does not
+   overflow; before the repair of the numbering loop only the current one was
+   scanned: was c09_refuted_pending_remote_mid) ... *)
 Theorem c09_no_reuse_partial : forall s i t t' r,
   offer_nowrap s = true ->
   nth_error (trs s) i = Some t -> t_mid t = "" ->
   nth_error (trs (offer_alloc s)) i = Some t' ->
-  In r (remote_secs (cur_remote s)) -> t_mid t' <> r_mid r.
-Proof. exact fresh_mid_not_in_current_remote_lemma. Qed.
+  In r (remote_secs (cur_remote s)) \/ In r (remote_secs (pend_remote s)) -> t_mid t' <> r_mid r.
+Proof. exact fresh_mid_not_in_remote_lemma. Qed.
 Print Assumptions c09_no_reuse_partial.
 
-(* ... and, in histories inside C06's numbering guard, from every other
-   transceiver's mid at every point of the history *)
+(* ... from the mid of every transceiver, wherever it stands in the list ... *)
+Theorem c09_no_reuse_of_transceiver_mid_partial : forall s i t t' u,
+  offer_nowrap s = true ->
+  nth_error (trs s) i = Some t -> t_mid t = "" ->
+  nth_error (trs (offer_alloc s)) i = Some t' ->
+  In u (trs s) -> t_mid t' <> t_mid u.
+Proof. exact fresh_mid_not_a_transceiver_mid_lemma. Qed.
+Print Assumptions c09_no_reuse_of_transceiver_mid_partial.
+
+(* ... so that, in histories without counter overflow, the transceivers' mids
+   are pairwise distinct at every point of the history *)
 Theorem c09_no_reuse_among_transceivers_partial : forall ops,
-  remote_ok ops -> numbering_ok_all ops ->
+  remote_ok ops -> nowrap_all ops ->
   forall s o out s', In (s, o, out, s') (trace ops) ->
   NoDup (set_mids (trs s)) /\ NoDup (set_mids (trs s')).
 Proof. exact trace_mids_distinct. Qed.
@@ -106,14 +184,52 @@ Theorem c09_refuted_local_data_mid :
 Proof. exact wit_c09_local_data. Qed.
 Print Assumptions c09_refuted_local_data_mid.
 
-(* (3): with a remote offer [40, 41] pending, the fresh mid is "41" *)
-Theorem c09_refuted_pending_remote_mid :
-  gen_kind_mids wit_pending = [[(KAudio, Some "40"); (KVideo, Some "41")]].
-Proof. exact wit_c09_pending. Qed.
-Print Assumptions c09_refuted_pending_remote_mid.
+(* (3): after greaterMid wrapped around, the next CreateOffer gives a new
+   transceiver a mid another transceiver already has *)
+Theorem c09_refuted_counter_overflow :
+  ~ NoDup (set_mids (trs (run wit_overflow))).
+Proof. exact wit_c09_overflow. Qed.
+Print Assumptions c09_refuted_counter_overflow.
 
 Example c09_partial_nontrivial :
   exists d rd, snd (create_offer st_reneg) = Ok d /\ offer_remote (offer_alloc st_reneg) = Some rd /\
     (forall r, In r (r_secs rd) -> usable r = true) /\ codecs_ok st_reneg /\ offer_nowrap st_reneg = true /\
     sec_mids d = [Some "0"; Some "1"; Some "2"; Some "cam2"; Some "3"].
 Proof. exact ex_c09_extension. Qed.
+
+(* the guard of the chain theorem holds on a history of three exchanges started
+   from both sides (tracks and transceivers added, removed and stopped, a data
+   channel, a remote and a local provisional answer, offers re-created before they
+   are applied); it applies eight descriptions of 4, 4, 4, 5, 5, 5, 8 and 8 sections *)
+Example c09_chain_nontrivial :
+  hist_guard ex_chain /\
+  map (@List.length _) (applied ex_chain) = [4; 4; 4; 5; 5; 5; 8; 8]%nat.
+Proof. exact ex_chain_ok. Qed.
+
+(* the stale clauses of the guard are needed: pion accepts an offer created
+   before an exchange and applied after it, and an answer created for an earlier
+   remote offer; neither extends what was applied before (the chain guard is false
+   exactly at the stale SetLocalDescription).  Both histories are replayed on the
+   real code (corpus); the oracle sets such histories aside. *)
+Example c09_chain_guard_stale_offer :
+  applied ex_stale_offer = [[Some "v"]; [Some "v"]; [Some "0"]] /\
+  map (fun e => match e with (s, g, o) => chain_guardb s g o end) (gtrace ex_stale_offer) =
+    [true; true; true; true; true; false].
+Proof. exact ex_stale_offer_applied. Qed.
+Example c09_chain_guard_stale_answer :
+  applied ex_stale_answer = [[Some "a"]; [Some "a"]; [Some "a"; Some "b"]; [Some "a"]] /\
+  map (fun e => match e with (s, g, o) => chain_guardb s g o end) (gtrace ex_stale_answer) =
+    [true; true; true; true; false].
+Proof. exact ex_stale_answer_applied. Qed.
+
+(* an orderly schedule of two exchanges (A offers an audio track, a recvonly video
+   transceiver and a data channel; B answers provisionally, adds a track, answers;
+   after a RemoveTrack on A, B offers one more transceiver and A answers): both
+   peers apply five descriptions of 3, 3, 3, 4 and 4 sections and end with the mid
+   list 0 1 2 3 *)
+Example c09_two_pion_peers_nontrivial :
+  orderly ex_pair /\
+  map (@List.length _) (papplied (fst (prun ex_pair))) = [3; 3; 3; 4; 4]%nat /\
+  map (@List.length _) (papplied (snd (prun ex_pair))) = [3; 3; 3; 4; 4]%nat /\
+  top (fst (prun ex_pair)) = Some [Some "0"; Some "1"; Some "2"; Some "3"].
+Proof. exact ex_pair_ok. Qed.
